@@ -96,6 +96,16 @@ def execute(case):
         ft = E.fit_transform(spec, est, spec.train_sets(cfg, "quick")[0], cfg)
         pool = spec.pool(cfg, "quick")
         return [ft, E.transform(spec, est, [pool[i] for i in case["batch"]], cfg)]
+    if k == "infow":
+        import scipy.sparse as sp
+        from vectorizers.transformers.info_weight import information_weight
+        from vectorizers.transformers import InformationWeightTransformer
+        M = np.array(case["M"], dtype=np.float64)
+        out = [np.asarray(information_weight(sp.csr_matrix(M), case["ps"], case["approx"])),
+               np.asarray(information_weight(sp.csc_matrix(M), case["ps"], case["approx"]))]
+        t = InformationWeightTransformer(prior_strength=case["ps"], approx_prior=case["approx"])
+        out.append(t.fit_transform(sp.csr_matrix(M), y=np.arange(M.shape[0]) % 2))
+        return out
     if k == "distance":
         x, y = np.array(case["x"], dtype=np.float64), np.array(case["y"], dtype=np.float64)
         out = []
@@ -181,6 +191,14 @@ def catalogue(tier):
             n = len(spec.pool(spec.configs("quick")[ci], "quick"))
             for b in [[i] for i in range(n)] + [list(range(n))]:
                 yield {"k": "registry", "spec": name, "cfg": ci, "batch": b}
+    # information weights: every 2x2 and a slice of the 3x3 count matrices over {0,1,5} - empty columns (no entry to read
+    # in the column's index array), empty rows, single entries - exact and approximate prior, unsupervised and supervised
+    for shape in ((2, 2), (3, 3)):
+        for ent in list(itertools.product((0, 1, 5), repeat=shape[0] * shape[1]))[:: (1 if shape == (2, 2) else 97)]:
+            if sum(ent) == 0:
+                continue
+            for approx in (False, True):
+                yield {"k": "infow", "M": [list(ent[i * shape[1]:(i + 1) * shape[1]]) for i in range(shape[0])], "ps": 1.0 if approx else 1e-4, "approx": approx}
     # distances on a small grid incl. single-entry vectors and disjoint supports
     G = [0.0, 1.0, 3.0, 1e-3]
     # all-zero vectors are included: their sparse encodings are EMPTY index/data arrays (all-zero matrix rows)
